@@ -193,7 +193,14 @@ type countingStore struct {
 	lattice    map[ast.PredicateSym]bool
 	offered    *int
 	offerBound int
+	// locking: the wrapped store is a ConcurrentFactStore, which runs GetFacts callbacks under its read lock; a
+	// write from inside such a callback (depth > 0) would block for ever and is reported instead of executed.
+	locking bool
+	depth   *int
 }
+
+// reentrantSentinel is the private panic value for a write to a locking store from inside its own callback.
+type reentrantSentinel struct{ op string }
 
 // noNamedVariable: every argument is a constant or the wildcard, as in the lookup of the existing facts by which
 // the engine merges a derived fact of a lattice predicate (source columns as constants, the others open).
@@ -219,10 +226,20 @@ func (s countingStore) GetFacts(a ast.Atom, fn func(ast.Atom) error) error {
 			panic(offerSentinel{*s.offered, s.offerBound})
 		}
 	}
-	return s.FactStore.GetFacts(a, fn)
+	if !s.locking {
+		return s.FactStore.GetFacts(a, fn)
+	}
+	return s.FactStore.GetFacts(a, func(x ast.Atom) error {
+		*s.depth++
+		defer func() { *s.depth-- }()
+		return fn(x)
+	})
 }
 
 func (s countingStore) Add(a ast.Atom) bool {
+	if s.locking && *s.depth > 0 {
+		panic(reentrantSentinel{"Add"})
+	}
 	ok := s.FactStore.Add(a)
 	if ok {
 		*s.n++
@@ -234,7 +251,12 @@ func (s countingStore) Add(a ast.Atom) bool {
 }
 
 // Remove keeps the wrapped store's optional removal interface visible to the engine (merge predicates).
-func (s countingStore) Remove(a ast.Atom) bool { return s.remover.Remove(a) }
+func (s countingStore) Remove(a ast.Atom) bool {
+	if s.locking && *s.depth > 0 {
+		panic(reentrantSentinel{"Remove"})
+	}
+	return s.remover.Remove(a)
+}
 
 type countingTemporalStore struct {
 	factstore.TemporalFactStore
@@ -292,6 +314,11 @@ func guarded(o *outcome, fn func()) {
 			if s, ok := r.(overrunSentinel); ok {
 				o.overrun = true
 				o.overrunMsg = fmt.Sprintf("evaluation under a created-fact limit created %d facts (bound %d): the limit is not enforced, evaluation would not return", s.created, s.bound)
+				return
+			}
+			if s, ok := r.(reentrantSentinel); ok {
+				o.overrun = true
+				o.overrunMsg = fmt.Sprintf("evaluation on a ConcurrentFactStore calls %s on the store from inside the store's own GetFacts callback (read lock held, write lock requested by the same goroutine): it would never return", s.op)
 				return
 			}
 			if s, ok := r.(offerSentinel); ok {
@@ -527,6 +554,13 @@ func execUnit(o *outcome, data []byte) {
 		}
 	}
 	store := countingStore{FactStore: simple, remover: simple, n: &created, bound: bound, lattice: lattice, offered: &offered, offerBound: offerBound}
+	if stats.Hash(string(data))&2 == 2 {
+		// every other input is evaluated on the concurrent wrapper
+		cs := factstore.NewConcurrentFactStore(simple)
+		depth := 0
+		store.FactStore, store.remover, store.locking, store.depth = cs, cs, true, &depth
+		o.label("concurrent_store")
+	}
 	temporal := countingTemporalStore{TemporalFactStore: factstore.NewTemporalStore(), n: &created, bound: bound}
 	guarded(o, func() {
 		err = engine.EvalProgram(info, store,
